@@ -17,6 +17,7 @@ arrays).
 from __future__ import annotations
 
 import collections.abc
+import copy
 import typing
 
 import numpy
@@ -111,6 +112,15 @@ def _reduce_count_nonzero(
         is_nonzero = numpy.logical_or(is_nonzero, a.t2 != 0)
 
     return numpy.count_nonzero(is_nonzero, axis=axis, keepdims=keepdims)
+
+
+def _own_dtype(array: typing.Any) -> typing.Any:
+    # the momentum classes rename the fields of their dtype in place; a dtype object
+    # that came from the caller (dtype=numpy.dtype(...), or another array) must not
+    # be the one that gets renamed
+    if array.dtype.names is None:
+        return array
+    return array.view(copy.copy(array.dtype))
 
 
 def _array_from_columns(columns: dict[str, ArrayLike]) -> ArrayLike:
@@ -1163,7 +1173,7 @@ class VectorNumpy2D(VectorNumpy, Planar, Vector2D, FloatArray):  # type: ignore[
         if len(args) == 1 and len(kwargs) == 0 and isinstance(args[0], dict):
             array = _array_from_columns(args[0])
         else:
-            array = numpy.array(*args, **kwargs)
+            array = _own_dtype(numpy.array(*args, **kwargs))
         return array.view(cls)
 
     def __array_finalize__(self, obj: typing.Any) -> None:
@@ -1410,7 +1420,7 @@ class VectorNumpy3D(VectorNumpy, Spatial, Vector3D, FloatArray):  # type: ignore
         if len(args) == 1 and len(kwargs) == 0 and isinstance(args[0], dict):
             array = _array_from_columns(args[0])
         else:
-            array = numpy.array(*args, **kwargs)
+            array = _own_dtype(numpy.array(*args, **kwargs))
         return array.view(cls)
 
     def __array_finalize__(self, obj: typing.Any) -> None:
@@ -1730,7 +1740,7 @@ class VectorNumpy4D(VectorNumpy, Lorentz, Vector4D, FloatArray):  # type: ignore
         if len(args) == 1 and len(kwargs) == 0 and isinstance(args[0], dict):
             array = _array_from_columns(args[0])
         else:
-            array = numpy.array(*args, **kwargs)
+            array = _own_dtype(numpy.array(*args, **kwargs))
         return array.view(cls)
 
     def __array_finalize__(self, obj: typing.Any) -> None:
